@@ -209,6 +209,11 @@ Lemma tlit_S k s :
     end.
 Proof. reflexivity. Qed.
 
+Section PT.
+  Variable sf : bool.
+  Notation WT := (Legal.WT sf).
+  Notation WTX := (Legal.WTX sf).
+
 Lemma WT_last l x : Forall WT l -> last (map Some l) None = Some x -> WT x.
 Proof.
   intros Hl E. apply last_map_some in E. rewrite E in Hl. apply Forall_app in Hl. destruct Hl as [_ Hx]. inversion Hx; assumption.
@@ -353,3 +358,4 @@ Proof.
   change 399 with (S 398) in *. rewrite p3_px_S in *. cbn [p3_th] in *.
   rewrite tlit_S in H. cbn [tlx] in H. apply andb_prop in H. exact H.
 Qed.
+End PT.
